@@ -205,6 +205,15 @@ fn same_ops(s: &mut ErasedSet, which: u32, c: &str, v: u32) -> String {
     }
 }
 
+// 96 further same-layout types (one per const parameter): stores with many types at once, for anything that depends on how
+// many types are held or on their hashes (seeds C20-9, C20-10)
+#[derive(Debug, Default)] struct Gen<const K: u32>(u32);
+impl<const K: u32> NumVal for Gen<K> { fn new(v: u32) -> Self { Gen(v) } fn val(&self) -> u32 { self.0 } fn set(&mut self, v: u32) { self.0 = v; } }
+fn gen_ops(s: &mut ErasedSet, t: u32, c: &str, v: u32) -> String {
+    macro_rules! arms { ($($k:literal)*) => { match t { $($k => num_op::<Gen<$k>>(s, c, v),)* _ => panic!("harness: bad eset type") } } }
+    arms!(7 8 9 10 11 12 13 14 15 16 17 18 19 20 21 22 23 24 25 26 27 28 29 30 31 32 33 34 35 36 37 38 39 40 41 42 43 44 45 46 47 48 49 50 51 52 53 54 55 56 57 58 59 60 61 62 63 64 65 66 67 68 69 70 71 72 73 74 75 76 77 78 79 80 81 82 83 84 85 86 87 88 89 90 91 92 93 94 95 96 97 98 99 100 101 102)
+}
+
 fn cmd_eset(a: &[&str]) -> String {
     let mut s = ErasedSet::new();
     let mut out: Vec<String> = vec![];
@@ -216,6 +225,10 @@ fn cmd_eset(a: &[&str]) -> String {
         let mut it = rest.split(',');
         let t: u32 = it.next().filter(|x| !x.is_empty()).map(|x| x.parse().unwrap()).unwrap_or(0);
         let v: u32 = it.next().map(|x| x.parse().unwrap()).unwrap_or(0);
+        if t >= 7 && c != "c" && c != "l" {
+            out.push(gen_ops(&mut s, t, c, v));
+            continue;
+        }
         if (t == 5 || t == 6) && c != "c" && c != "l" {
             out.push(same_ops(&mut s, t, c, v));
             continue;
